@@ -941,4 +941,149 @@ Section Follow.
     rewrite (mapd_ext_in _ (fun c d => adj (F c d) (med_of d) (- (1)))); [exact H|].
     intros c d Hin. unfold mj_level in Hin. apply filter_In in Hin. apply adj_compat. apply Hmed. tauto.
   Qed.
+
+  Lemma follow_done F U T T' n : Inv U T -> Inv (mapd F U) T' -> ((0 < T)%Z <-> (0 < T')%Z) ->
+    (forall c d, In (c, d) U -> (med_of (F c d) == med_of d)%Q) -> (mx U <=? 0)%Z = false ->
+    Nat.eqb (count_tie (gnb (canon U) n)) 0 = true -> MJ (mapd F U) n (inl (gnb (canon U) n)).
+  Proof.
+    intros HI HI' Hiff Hmed Hm Hc.
+    destruct (simple_agg F U T T' HI HI' Hiff (fun _ => Hmed) Hm) as (HT & Ha & Ha' & Hg).
+    assert (Hm' : (mx (mapd F U) <=? 0)%Z = false) by (rewrite (simple_mx F U T T' HI HI' Hiff); exact Hm).
+    rewrite <- (Hg n). apply (MJ_done (mapd F U) n (canon (mapd F U)) Hm' Ha'). rewrite Hg. exact Hc.
+  Qed.
+
+  Lemma follow_win F U T T' n r : Inv U T -> Inv (mapd F U) T' -> ((0 < T)%Z <-> (0 < T')%Z) ->
+    (forall c d, In (c, d) U -> (med_of (F c d) == med_of d)%Q) -> (mx U <=? 0)%Z = false ->
+    Nat.eqb (count_tie (gnb (canon U) n)) 0 = false -> Nat.ltb 0 (untied_of (gnb (canon U) n)) = true ->
+    MJ (mapd F (rest_of U (gnb (canon U) n))) (n - untied_of (gnb (canon U) n)) r ->
+    MJ (mapd F U) n (match r with inl r => inl (winners_of (gnb (canon U) n) ++ r) | inr e => inr e end).
+  Proof.
+    intros HI HI' Hiff Hmed Hm Hc Hu H.
+    destruct (simple_agg F U T T' HI HI' Hiff (fun _ => Hmed) Hm) as (HT & Ha & Ha' & Hg).
+    assert (Hm' : (mx (mapd F U) <=? 0)%Z = false) by (rewrite (simple_mx F U T T' HI HI' Hiff); exact Hm).
+    rewrite <- (Hg n). apply (MJ_win (mapd F U) n (canon (mapd F U)) r Hm' Ha'); rewrite ?Hg; try assumption.
+    rewrite rest_of_mapd. exact H.
+  Qed.
+
+  Lemma iff_sync T : (0 < T)%Z <-> (0 < k * T)%Z.
+  Proof. split; nia. Qed.
+
+  Lemma iff_p1 T : Z.odd T = true -> (0 <= T)%Z -> ((0 < T)%Z <-> (0 < k * T + k - 1)%Z).
+  Proof. intros Ho H0. rewrite Z.odd_spec in Ho. destruct Ho as [t Et]. split; nia. Qed.
+
+  Lemma sub_in U tied c d : In (c, d) (mj_level U tied) -> In (c, d) U.
+  Proof. unfold mj_level. intros H. apply filter_In in H. tauto. Qed.
+
+  Theorem MJ_follow U n r : MJ U n r -> forall T, Inv U T ->
+    MJ (mapd Fsc U) n r /\
+    (forall hs h0, Z.odd T = true -> p1_ok hs h0 U T -> MJ (mapd (Fp1 hs) U) n r).
+  Proof.
+    induction 1 as [U n Hm|U n e Hm Ha|U n med Hm Ha Hc|U n med r Hm Ha Hc Hu H IH|U n med r Hm Ha Hc Hu H IH]; intros T HI.
+    - (* nobody has a score left *)
+      split.
+      + apply MJ_vse. rewrite (simple_mx Fsc U T (k * T) HI (SC_Inv U T HI) (iff_sync T)). exact Hm.
+      + intros hs h0 Ho Hok. destruct U as [|x U']; [apply MJ_vse; reflexivity|]. exfalso.
+        pose proof (Inv_nonneg _ _ HI ltac:(discriminate)) as H0. rewrite (mx_Inv _ _ HI H0) in Hm. apply Z.leb_le in Hm.
+        rewrite Z.odd_spec in Ho. destruct Ho as [t Et]. lia.
+    - exfalso. destruct U as [|x U']; [discriminate|].
+      pose proof (Inv_nonneg _ _ HI ltac:(discriminate)) as H0. destruct (proj1 (mx_pos _ _ HI H0) Hm) as [_ HT].
+      rewrite (aggregate_Inv _ _ HI HT) in Ha. discriminate.
+    - destruct (aggregate_canon U T med HI Hm Ha) as [-> HT]. split.
+      + apply (follow_done Fsc U T (k * T) n HI (SC_Inv U T HI) (iff_sync T)); try assumption.
+        intros c d _. unfold Fsc. rewrite med_of_scalec. reflexivity.
+      + intros hs h0 Ho Hok. apply (follow_done (Fp1 hs) U T (k * T + k - 1) n HI (P1_Inv hs h0 U T HI HT Ho Hok) (iff_p1 T Ho ltac:(lia))); try assumption.
+        intros c d Hin. destruct (P1_cand hs h0 U T c d HI HT Ho Hok Hin) as (A & B & Cm).
+        apply (med_of_char _ (k * T + k - 1)); [exact A|exact B| |exact Cm]. apply (iff_p1 T Ho ltac:(lia)). exact HT.
+    - destruct (aggregate_canon U T med HI Hm Ha) as [-> HT].
+      destruct (IH T (Inv_filter _ U T HI)) as [IHs IHp]. split.
+      + apply (follow_win Fsc U T (k * T) n r HI (SC_Inv U T HI) (iff_sync T)); try assumption.
+        intros c d _. unfold Fsc. rewrite med_of_scalec. reflexivity.
+      + intros hs h0 Ho Hok. apply (follow_win (Fp1 hs) U T (k * T + k - 1) n r HI (P1_Inv hs h0 U T HI HT Ho Hok) (iff_p1 T Ho ltac:(lia))); try assumption.
+        * intros c d Hin. destruct (P1_cand hs h0 U T c d HI HT Ho Hok Hin) as (A & B & Cm).
+          apply (med_of_char _ (k * T + k - 1)); [exact A|exact B| |exact Cm]. apply (iff_p1 T Ho ltac:(lia)). exact HT.
+        * apply (IHp hs h0 Ho). apply p1_ok_filter, Hok.
+    - (* a tie in the first place: one removal in the original run, k in the k-fold run *)
+      destruct (aggregate_canon U T med HI Hm Ha) as [-> HT].
+      destruct (block_facts U T n HI HT Hc Hu) as (thr & Hn & Hlev & HI1 & _ & _). fold (canon U) in Hn, Hlev, HI1.
+      set (sub1 := mj_level U (tied_of (gnb (canon U) n))) in *.
+      pose proof (mj_remove_own U T (fun cd : C * cscores => cmem (fst cd) (tied_of (gnb (canon U) n))) 1 HI HT) as E.
+      change (mj_remove sub1 (canon U) 1 = own_remove sub1 1) in E. rewrite E in H, IH. clear E.
+      assert (Hcf : forall c d, In (c, d) sub1 -> good d /\ cs_total d = T /\ In (med_of d) (map fst d) /\ is_med d (med_of d) /\ (med_of d == thr)%Q).
+      { intros c d Hin. destruct (cand_facts sub1 T c d HI1 HT Hin) as (A1 & A2 & A3 & A4). split; [exact A1|]. split; [exact A2|]. split; [exact A3|]. split; [exact A4|exact (Hlev c d Hin)]. }
+      assert (HIU1 : Inv (own_remove sub1 1) (T - 1)).
+      { apply own_remove_Inv; [exact HI1|exact HT|]. intros c d Hin. destruct (Hcf c d Hin) as (A1 & _ & _ & A4 & _). exact (get0_med_pos d _ A1 A4). }
+      destruct (IH (T - 1)%Z HIU1) as [IHs IHp]. clear IH.
+      assert (Hnd1 : NoDup (map fst sub1)) by exact (proj1 HI1).
+      (* the k-fold image of the state after the original removal *)
+      assert (IHs' : MJ (mapd (fun c d => adj (scalec k d) (med_of d) (- k)) sub1) n r).
+      { rewrite own_remove_mapd, mapd_mapd in IHs. rewrite (mapd_ext_in _ (fun c d => adj (scalec k d) (med_of d) (- k))) in IHs; [exact IHs|].
+        intros c d _. unfold Fsc. rewrite scalec_adj. f_equal. lia. }
+      split.
+      + apply (tie_image Fsc U T (k * T) n r HI (SC_Inv U T HI) (iff_sync T)); try assumption.
+        { intros c d _. unfold Fsc. rewrite med_of_scalec. reflexivity. }
+        fold sub1. unfold Fsc. destruct (Z.odd T) eqn:Ho.
+        * (* odd total: k removals of the same median *)
+          assert (Hchain : forall i : nat, (Z.of_nat i < k)%Z ->
+                    MJ (mapd (fun c d => adj (scalec k d) (med_of d) (- (k - Z.of_nat i))) sub1) n r).
+          { induction i as [|i IHi]; intros Hi; [rewrite Z.sub_0_r; exact IHs'|].
+            specialize (IHi ltac:(lia)). set (j := (k - Z.of_nat (S i))%Z). assert (Hj : (1 <= j < k)%Z) by lia.
+            replace (k - Z.of_nat i)%Z with (j + 1)%Z in IHi by lia.
+            apply (NOOP_mapd _ (fun c d => adj (scalec k d) (med_of d) (- (j + 1))) (fun c d => med_of d) sub1 (k * T - j) thr n r Hnd1);
+              [nia|exact Hn| |exact IHi].
+            intros c d Hin. destruct (Hcf c d Hin) as (A1 & A2 & A3 & A4 & A5).
+            split; [apply (sync_good k Hk d _ A1 A3 A4); lia|]. split; [rewrite (total_sa k d T A1 A2 _ _ A3); lia|].
+            split; [apply (sync_odd_med k Hk d T _ A1 A2 A3 A4 j Ho); lia|]. split; [exact A5|].
+            rewrite adj_adj_same. f_equal. lia. }
+          specialize (Hchain (Z.to_nat (k - 1)) ltac:(lia)). rewrite Z2Nat.id in Hchain by lia.
+          replace (k - (k - 1))%Z with 1%Z in Hchain by lia. exact Hchain.
+        * (* even total: the k-fold run is now k - 1 scores ahead *)
+          assert (Hev : exists t, T = (2 * t)%Z).
+          { rewrite <- Z.negb_even in Ho. apply negb_false_iff in Ho. apply Z.even_spec in Ho. exact Ho. }
+          destruct Hev as [t Et].
+          assert (Ho1 : Z.odd (T - 1) = true) by (apply Z.odd_spec; exists (t - 1)%Z; lia).
+          set (hs := fun c : C => dget_or (canon U) c 0%Q).
+          assert (Hhs : forall c d, In (c, d) sub1 -> hs c = med_of d).
+          { intros c d Hin. unfold hs, canon. apply (dget_or_own U c d (proj1 HI)). exact (sub_in U _ c d Hin). }
+          assert (Hok1 : p1_ok hs thr (own_remove sub1 1) (T - 1)).
+          { intros c d' Hin. rewrite own_remove_mapd in Hin. destruct (mapd_In _ sub1 c d' Hin) as (d & HinU & ->).
+            destruct (Hcf c d HinU) as (A1 & A2 & A3 & [M1 M2] & A5). rewrite (Hhs c d HinU). rewrite A2 in M1, M2.
+            split; [rewrite adj_keys; exact A3|]. split; [exact A5|].
+            rewrite (below_adj d _ _ _ (proj1 A1) (has_In d _ A3)), (atmost_adj d _ _ _ (proj1 A1) (has_In d _ A3)), qlt_irrefl, Qle_bool_refl. lia. }
+          specialize (IHp hs thr Ho1 Hok1). rewrite own_remove_mapd, mapd_mapd in IHp.
+          rewrite (mapd_ext_in _ (fun c d => adj (scalec k d) (med_of d) (- (1)))) in IHp; [exact IHp|].
+          intros c d Hin. unfold Fp1. rewrite (Hhs c d Hin), scalec_adj, adj_adj_same. f_equal. lia.
+      + intros hs h0 Ho Hok.
+        assert (H0T : (0 <= T)%Z) by lia.
+        apply (tie_image (Fp1 hs) U T (k * T + k - 1) n r HI (P1_Inv hs h0 U T HI HT Ho Hok) (iff_p1 T Ho H0T)); try assumption.
+        { intros c d Hin. destruct (P1_cand hs h0 U T c d HI HT Ho Hok Hin) as (A & B & Cm).
+          apply (med_of_char _ (k * T + k - 1)); [exact A|exact B| |exact Cm]. apply (iff_p1 T Ho H0T). exact HT. }
+        fold sub1.
+        assert (Hh : forall c d, In (c, d) sub1 ->
+                  In (hs c) (map fst d) /\ (hs c == h0)%Q /\ (2 * below d (hs c) <= T - 1)%Z /\ (T - 1 <= 2 * atmost d (hs c))%Z).
+        { intros c d Hin. apply Hok. exact (sub_in U _ c d Hin). }
+        (* the staircase: from  k * (d - m)  up to  k * (d - m) + (k-1) h + (k-1) m *)
+        assert (Hstair : forall i : nat, (Z.of_nat i <= k - 1)%Z ->
+                  MJ (mapd (fun c d => stairZ k d (med_of d) (hs c) (Z.of_nat i) (Z.of_nat i)) sub1) n r).
+        { induction i as [|i IHi]; intros Hi.
+          - rewrite (mapd_ext_in _ (fun c d => adj (scalec k d) (med_of d) (- k))); [exact IHs'|].
+            intros c d _. cbn [Z.of_nat]. rewrite stairZ_zero, scalec_adj. f_equal. lia.
+          - specialize (IHi ltac:(lia)). set (x := Z.of_nat i) in *. replace (Z.of_nat (S i)) with (x + 1)%Z by lia.
+            assert (Hx : (0 <= x <= k - 2)%Z) by lia.
+            assert (Hmid : MJ (mapd (fun c d => stairZ k d (med_of d) (hs c) x (x + 1)) sub1) n r).
+            { apply (NOOP_mapd _ (fun c d => stairZ k d (med_of d) (hs c) x x) (fun c d => med_of d) sub1 (k * (T - 1) + x + (x + 1)) thr n r Hnd1);
+                [nia|exact Hn| |exact IHi].
+              intros c d Hin. destruct (Hcf c d Hin) as (A1 & A2 & A3 & A4 & A5). destruct (Hh c d Hin) as (B1 & B2 & B3 & B4).
+              split; [apply (stair_good k Hk d _ A1 A3 A4 _ B1); lia|]. split; [apply (stair_total d T _ _ x (x + 1) A1 A2 A3 B1)|].
+              split; [apply (stair_med_m k Hk d T _ A1 A2 A3 A4 _ B1 Ho B3); lia|]. split; [exact A5|].
+              unfold stairZ. rewrite adj_adj_same. f_equal. lia. }
+            apply (NOOP_mapd _ (fun c d => stairZ k d (med_of d) (hs c) x (x + 1)) (fun c d => hs c) sub1 (k * (T - 1) + (x + 1) + (x + 1)) h0 n r Hnd1);
+              [nia|exact Hn| |exact Hmid].
+            intros c d Hin. destruct (Hcf c d Hin) as (A1 & A2 & A3 & A4 & A5). destruct (Hh c d Hin) as (B1 & B2 & B3 & B4).
+            split; [apply (stair_good k Hk d _ A1 A3 A4 _ B1); lia|]. split; [apply (stair_total d T _ _ (x + 1) (x + 1) A1 A2 A3 B1)|].
+            split; [apply (stair_med_h k Hk d T _ A1 A2 A3 A4 _ B1 Ho B3 B4); lia|]. split; [exact B2|].
+            unfold stairZ. rewrite (adj_adj_comm _ (med_of d) (x + 1) (hs c) (- (1))), adj_adj_same. f_equal. f_equal. lia. }
+        specialize (Hstair (Z.to_nat (k - 1)) ltac:(lia)). rewrite Z2Nat.id in Hstair by lia.
+        rewrite (mapd_ext_in _ (fun c d => stairZ k d (med_of d) (hs c) (k - 1) (k - 1))); [exact Hstair|].
+        intros c d _. unfold Fp1. rewrite <- (stairZ_top d (med_of d) (hs c)). unfold stairZ. rewrite adj_adj_same. f_equal.
+  Qed.
 End Follow.
